@@ -1,5 +1,6 @@
 SPECIFICATION MSpec
 CONSTANT Sched = "any"
+CONSTANT KFS = {}
 INVARIANT ReadyClosed
 INVARIANT EvictionSound
 INVARIANT DoneWhenSettled
